@@ -126,32 +126,39 @@ bool hazard_eras<Traits>::guard_ptr<T, MarkedPtr>::acquire_if_equal(const concur
     order = std::memory_order_acquire;
   }
 
-  // (2) - this load operation synchronizes-with any release operation on p.
-  // we have to use acquire here to ensure that the subsequent era_clock.load
-  // sees a value >= p.construction_era
-  auto p1 = p.load(order);
-  if (p1 == nullptr || p1 != expected) {
-    reset();
-    return p1 == expected;
-  }
-
-  const auto era = era_clock.load(std::memory_order_relaxed);
-  if (he != nullptr && he->guards() == 1) {
-    he->set_era(era);
-  } else {
-    if (he != nullptr) {
-      he->release_guard();
+  era_t prev_era = he == nullptr ? 0 : he->get_era();
+  for (;;) {
+    // (2) - this load operation synchronizes-with any release operation on p.
+    // we have to use acquire here to ensure that the subsequent era_clock.load
+    // sees a value >= p.construction_era
+    auto p1 = p.load(order);
+    if (p1 == nullptr || p1 != expected) {
+      reset();
+      return p1 == expected;
     }
 
-    he = local_thread_data().alloc_hazard_era(era);
-  }
+    // Comparing the pointer again after the era has been published is not sufficient: the node
+    // could have been reclaimed and a younger node with the same address could have taken its
+    // place (ABA); that node would not be covered by the published era. So, just like in acquire,
+    // we are only done when the era we have published is still the current one.
+    const auto era = era_clock.load(std::memory_order_relaxed);
+    if (era == prev_era) {
+      this->ptr = p1;
+      return true;
+    }
 
-  this->ptr = p.load(std::memory_order_relaxed);
-  if (this->ptr != p1) {
-    reset();
-    return false;
+    if (he != nullptr && he->guards() == 1) {
+      he->set_era(era);
+    } else {
+      if (he != nullptr) {
+        he->release_guard();
+        he = nullptr;
+      }
+
+      he = local_thread_data().alloc_hazard_era(era);
+    }
+    prev_era = era;
   }
-  return true;
 }
 
 template <class Traits>
